@@ -514,3 +514,81 @@ def corr_class_defs(ctx, corr):
         if msg:
             corr.disagreements.append(dict(case=dict(kind='corr-classdef', tokens=toks, budget=budget), model=str(m)[:900], impl=str(r)[:900],
                                            what="class definitions `%s`: %s" % (' '.join(toks), msg)))
+
+
+def lex_strings(src):
+    """the significant tokens of a source text, by the real lexer"""
+    lx = impl.L.LexerTokenStream(None, src)
+    out = []
+    while True:
+        t = lx.token_eof_ok()
+        if t is None:
+            return out
+        out.append((t.type, t.value))
+
+
+def corr_corpus_units(ctx, corr):
+    """the same model on the inputs of the test-suite (human-written headers): whatever of them lies inside the model's vocabulary
+    must read as the implementation reads it"""
+    cases = []
+    for src in impl.corpus():
+        if '#' in src or len(src) > 4000:
+            continue
+        try:
+            toks = lex_strings(src)
+        except Exception:
+            continue
+        if toks:
+            cases.append((src, toks))
+    lines, nms = [], []
+    for src, toks in cases:
+        names = decl.Names()
+        pairs = []
+        for c in sorted(set(v for ty, v in toks if ty == 'NAME' and not v.startswith('~'))):
+            pairs += [names.id(c), names.id('~' + c)]
+        enc = []
+        for ty, v in toks:
+            if ty not in decl.CODE:
+                enc = None
+                break
+            enc += [decl.CODE[ty], 0 if ty == 'void' else names.id(v)]
+        if enc is None:
+            enc = [0, 0]
+        lines.append([121, len(toks) + 4, sum(1 for ty, v in toks if v == ',') + 3, 0, 0, 0, 0, len(pairs) // 2] + pairs + enc)
+        model_names(names)
+        nms.append(names)
+    inside = 0
+    for (src, toks), o, names in zip(cases, run_driver(lines), nms):
+        corr.cases += 1
+        if o[0] == 0:
+            d = bodies.Dec(o, names)
+            d.i = 1
+            rest, _aid, cnt = d.n(), d.n(), d.n()
+            items = []
+            try:
+                dec_items(d, cnt, False, items)
+            except Exception as e:                      # a decoding problem is a harness defect: report it
+                corr.disagreements.append(dict(case=dict(kind='corr-corpus-unit', source=src), model='undecodable: %r' % (e,), impl='',
+                                               what="corpus unit: the model's answer cannot be decoded (%r)" % (e,)))
+                continue
+            m = ('ok', items, rest)
+        else:
+            m = ('err', o[1])
+        r = real_text(src)
+        k = "corpus-unit:" + (m[0] if m[0] == 'ok' else 'err%d' % m[1]) + "/" + r[0]
+        corr.dist[k] = corr.dist.get(k, 0) + 1
+        msg = None
+        if m[0] == 'ok' and m[2] == 0:
+            inside += 1
+            if r[0] == 'err':
+                msg = "model decodes the text but the implementation rejects it"
+            elif r[0] == 'ok' and r[1] != m[1]:
+                msg = "model %s; implementation %s" % (m[1], r[1])
+        elif m[0] == 'err' and m[1] in (1, 2, 3) and r[0] == 'ok' and not decl.final_as_name([v for _ty, v in toks]):
+            msg = "model rejects (code %d) but the implementation reports %s" % (m[1], r[1])
+        elif m[0] == 'err' and m[1] == 9 and r[0] == 'ok':
+            msg = "model ran out of fuel"
+        if msg:
+            corr.disagreements.append(dict(case=dict(kind='corr-corpus-unit', source=src), model=str(m)[:900], impl=str(r)[:900],
+                                           what="test-suite input `%s`: %s" % (src[:300], msg)))
+    return inside
